@@ -118,8 +118,9 @@ func (w *e2eWorld) finish() {
 
 const e2eWait = 20 * time.Second
 
-func (e *ex) doDial(id string) core.Result {
-	if _, dup := e.conns[id]; dup || e.tsl == nil {
+func (e *ex) doDial(id, gS string) core.Result {
+	g, gerr := strconv.ParseInt(gS, 10, 64)
+	if _, dup := e.conns[id]; dup || e.tsl == nil || (gS != "" && (gerr != nil || g < 1)) {
 		return core.Result{Impl: "bad-op"}
 	}
 	w, err := e.world()
@@ -149,6 +150,13 @@ func (e *ex) doDial(id string) core.Result {
 		keys = append(keys, fmt.Sprintf("%s:%d", k, b.WriteBucket.Capacity()))
 	}
 	sort.Strings(keys)
+	if gS != "" {
+		// the handler does not look at the connection's buckets before the first request arrives
+		for re := range tc.GlobalBuckets {
+			tc.GlobalBuckets[re] = e.sharedFast(re, g)
+		}
+		core.Count("dial:shared-bucket-limited")
+	}
 	core.Count("dial")
 	impl := "conn -"
 	if len(keys) > 0 {
